@@ -29,6 +29,10 @@ type Scenario struct {
 	Cancel  bool       `json:"allow_cancel,omitempty"`
 	FailCtx bool       `json:"allow_store_failure_ctx_canceled,omitempty"`
 	Budget  int        `json:"budget,omitempty"`
+	// Directed: schedules given by choice names ("start(1)", "cancel(1)", "persist_ok(-1)"; "resume(0)*" = as long as
+	// that choice is enabled), executed (and replayed on the model) before the search; once a script is used up the
+	// first enabled choice is taken
+	Directed [][]string `json:"directed,omitempty"`
 }
 
 type Exec struct {
@@ -44,6 +48,7 @@ type Exec struct {
 	LostAck      int                    `json:"lost_ack"`
 	LostAckSet   bool                   `json:"lost_ack_set,omitempty"`
 	Stuck        bool                   `json:"stuck,omitempty"`
+	FinalCount   int                    `json:"-"` // choices left when the execution stopped
 	SetupLen     int                    `json:"setup_len"`
 	SetupChoices []engx.Choice          `json:"-"`
 	MainChoices  []engx.Choice          `json:"-"`
@@ -54,7 +59,10 @@ func send(amount int, src, dst string) string {
 }
 
 // run executes the scenario following the schedule prefix (then always choice 0).
-func run(sc Scenario, prefix []int, keepTrace bool) Exec {
+func run(sc Scenario, prefix []int, keepTrace bool) Exec { return runDirected(sc, prefix, nil, keepTrace) }
+
+// runDirected: the choices named by the script come first (see Scenario.Directed), then the prefix applies.
+func runDirected(sc Scenario, prefix []int, script []string, keepTrace bool) Exec {
 	disk := &engx.Disk{}
 	var setupChoices []engx.Choice
 	// setup: sequential, uncontrolled interleaving is impossible with one thread at a time
@@ -97,17 +105,44 @@ func run(sc Scenario, prefix []int, keepTrace bool) Exec {
 		if k >= len(en) {
 			k = 0
 		}
+		if len(script) > 0 {
+			k = -1
+			for len(script) > 0 && k < 0 {
+				name, star := script[0], false
+				if strings.HasSuffix(name, "*") {
+					name, star = name[:len(name)-1], true
+				}
+				for i, c := range en {
+					if c.String() == name {
+						k = i
+					}
+				}
+				if k < 0 && !star {
+					s.Fault = fmt.Sprintf("directed schedule: %s is not enabled after %v (enabled: %v)", name, ex.Choices, en)
+					break
+				}
+				if k < 0 || !star {
+					script = script[1:]
+				}
+			}
+			if s.Fault != "" {
+				break
+			}
+			if k < 0 {
+				k = 0
+			}
+		}
 		ex.Schedule = append(ex.Schedule, k)
 		ex.Counts = append(ex.Counts, len(en))
 		ex.Choices = append(ex.Choices, en[k].String())
-		ex.MainChoices = append(ex.MainChoices, en[k])
-		s.Do(en[k])
+		ex.MainChoices = append(ex.MainChoices, s.Do(en[k]))
 		step++
 		if step > 400 {
 			s.Fault = "schedule too long"
 		}
 	}
 	ex.Stuck = s.Stuck()
+	ex.FinalCount = len(s.Enabled())
 	ex.Fault = s.Fault
 	ex.LostAck, ex.LostAckSet = s.LostAck, s.LostAckSet
 	ex.Responses = s.Responses()
@@ -603,6 +638,10 @@ func scenarios() []Scenario {
 	ik := func(r engx.Req, x string) engx.Req { r.IK = x; return r }
 	dry := func(r engx.Req) engx.Req { r.DryRun = true; return r }
 	metaA := engx.Req{Kind: "savemeta", Target: "ACCOUNT", TargetID: "alice", Meta: map[string]string{"a": "1"}}
+	// request 0 holds the locks until it is done, request 1 has queued and is granted by 0's release; only then is 1 cancelled
+	grantedThenCancelled := []string{"start(0)", "resume(0)*", "start(1)", "resume(1)*", "persist_ok(-1)", "resume(0)*", "cancel(1)", "resume(1)"}
+	// the same with request 2 queued behind 1: when 1 gives its grant back the queue is re-checked and 2 is granted
+	regrant := []string{"start(0)", "resume(0)*", "start(1)", "resume(1)*", "start(2)", "resume(2)*", "persist_ok(-1)", "resume(0)*", "cancel(1)", "resume(1)", "resume(2)*"}
 	return []Scenario{
 		{Name: "double-spend-literal", Setup: []engx.Req{fund("alice", 100)}, Reqs: []engx.Req{xfer(100, "alice", "bob"), xfer(100, "alice", "carol")}},
 		{Name: "double-spend-variable", Setup: []engx.Req{fund("alice", 100)}, Reqs: []engx.Req{viaVar, xfer(100, "alice", "carol")}},
@@ -650,6 +689,35 @@ func scenarios() []Scenario {
 			ref(xfer(100, "alice", "bob"), "r8"), ref(xfer(100, "alice", "carol"), "r8")}},
 		{Name: "cancel-spend-race", Setup: []engx.Req{fund("alice", 100)}, Cancel: true, Budget: 160, Reqs: []engx.Req{
 			xfer(100, "alice", "bob"), xfer(100, "alice", "carol")}},
+		// a request waiting for its account locks gives up when its context is done (DefaultLocker.Lock); directed
+		// schedules: cancelled while queued / before it starts locking (with and without contention) / after the
+		// grant and before it resumes (the select may then take either branch: repeated)
+		{Name: "cancel-while-queued", Setup: []engx.Req{fund("alice", 100)}, Cancel: true, Budget: 120, Reqs: []engx.Req{
+			xfer(60, "alice", "bob"), ik(ref(xfer(30, "alice", "carol"), "r10"), "k10")},
+			Directed: [][]string{
+				{"start(0)", "resume(0)*", "start(1)", "resume(1)*", "cancel(1)", "resume(1)", "persist_ok(-1)", "resume(0)*"},
+				{"start(0)", "resume(0)*", "start(1)", "cancel(1)", "resume(1)*", "persist_ok(-1)", "resume(0)*"},
+				{"start(0)", "resume(0)", "resume(0)", "start(1)", "resume(1)", "resume(1)", "cancel(1)", "resume(0)*", "resume(1)*", "persist_ok(-1)", "resume(0)*"},
+				{"start(1)", "cancel(1)", "resume(1)*", "persist_ok(-1)", "resume(1)*", "start(0)", "resume(0)*", "persist_ok(-1)", "resume(0)*"},
+				{"start(1)", "resume(1)*", "cancel(1)", "start(0)", "resume(0)*", "persist_ok(-1)", "resume(1)*", "resume(0)*"},
+				grantedThenCancelled, grantedThenCancelled, grantedThenCancelled, grantedThenCancelled, grantedThenCancelled, grantedThenCancelled,
+			}},
+		{Name: "cancel-queued-three", Setup: []engx.Req{fund("alice", 100)}, Cancel: true, Budget: 120, Reqs: []engx.Req{
+			xfer(60, "alice", "bob"), ik(ref(xfer(30, "alice", "carol"), "r11"), "k11"), xfer(10, "alice", "bob")},
+			Directed: [][]string{regrant, regrant, regrant, regrant, regrant, regrant,
+				{"start(0)", "resume(0)*", "start(1)", "resume(1)*", "start(2)", "resume(2)*", "cancel(2)", "resume(2)", "persist_ok(-1)", "resume(0)*", "resume(1)*", "persist_ok(-1)", "resume(1)*"},
+			}},
+		{Name: "cancel-then-retry-same-key", Setup: []engx.Req{fund("alice", 100)}, Cancel: true, Budget: 120, Reqs: []engx.Req{
+			xfer(60, "alice", "bob"), ik(ref(xfer(30, "alice", "carol"), "r12"), "k12"), ik(ref(xfer(30, "alice", "carol"), "r12"), "k12")},
+			Directed: [][]string{
+				{"start(0)", "resume(0)*", "start(1)", "resume(1)*", "cancel(1)", "resume(1)", "start(2)", "resume(2)*", "persist_ok(-1)", "resume(0)*", "resume(2)*", "persist_ok(-1)", "resume(2)*"},
+				{"start(0)", "resume(0)*", "start(1)", "resume(1)*", "start(2)", "resume(2)*", "cancel(1)", "resume(1)", "persist_ok(-1)", "resume(0)*"},
+			}},
+		{Name: "cancel-queued-revert", Setup: []engx.Req{fund("alice", 100), xfer(40, "alice", "bob")}, Cancel: true, Budget: 160, Reqs: []engx.Req{
+			xfer(10, "bob", "carol"), ik(engx.Req{Kind: "revert", RevertID: 1}, "k13"), {Kind: "revert", RevertID: 1}},
+			Directed: [][]string{
+				{"start(0)", "resume(0)*", "start(1)", "resume(1)*", "cancel(1)", "resume(1)", "start(2)", "resume(2)*", "persist_ok(-1)", "resume(0)*", "resume(2)*", "persist_ok(-1)", "resume(2)*"},
+			}},
 		{Name: "store-failure-context-canceled", Setup: []engx.Req{fund("alice", 100)}, FailCtx: true, Budget: 40, Reqs: []engx.Req{
 			metaA, xfer(10, "alice", "bob")}},
 		{Name: "crash-points", Setup: []engx.Req{fund("alice", 100)}, Crash: true, Fail: true, Reqs: []engx.Req{
@@ -703,7 +771,12 @@ func (n *names) action(c engx.Choice, reqs []engx.Req, off int) string {
 	case "start":
 		return fmt.Sprintf("AStart %d %s", c.Tid+off, n.request(reqs[c.Tid]))
 	case "resume":
+		if c.Via == "cancelled" {
+			return fmt.Sprintf("AResumeCancelled %d", c.Tid+off) // the lock select took its ctx.Done() branch
+		}
 		return fmt.Sprintf("AResume %d", c.Tid+off)
+	case "cancel":
+		return fmt.Sprintf("ACancel %d", c.Tid+off)
 	case "persist_ok":
 		return "APersistOk"
 	case "persist_fail":
@@ -755,7 +828,7 @@ func coqCase(sc Scenario, ex Exec) string {
 			x = "RCrashed"
 		default:
 			cls, ok := map[string]string{"ik-busy": "EIkBusy", "conflict": "EConflict", "not-found": "ENotFound", "already-reverted": "EAlreadyReverted",
-				"revert-occurring": "ERevertOccurring", "insufficient": "EInsufficient", "no-postings": "ENoPostings"}[r.Err]
+				"revert-occurring": "ERevertOccurring", "insufficient": "EInsufficient", "no-postings": "ENoPostings", "lock-cancelled": "ELockCancelled"}[r.Err]
 			if !ok {
 				cls = "EKindMismatch (* " + strings.ReplaceAll(r.Err, "*)", "") + " *)"
 			}
@@ -782,8 +855,8 @@ func coqCase(sc Scenario, ex Exec) string {
 		events = append(events, fmt.Sprintf("(%d, %s, %s, %s)", 100+p.Tid, kind, tx, rv))
 	}
 	j := func(xs []string) string { return "[" + strings.Join(xs, ";\n      ") + "]" }
-	return fmt.Sprintf("{| ec_setup := %s;\n   ec_reqs := %s;\n   ec_allow_fail := %v; ec_allow_crash := %v; ec_max_crashes := 1;\n   ec_steps := %s;\n   ec_disk := %s;\n   ec_resps := %s;\n   ec_events := %s |}",
-		j(setup), j(reqs), sc.Fail, sc.Crash, j(steps), j(disk), j(resps), j(events))
+	return fmt.Sprintf("{| ec_setup := %s;\n   ec_reqs := %s;\n   ec_allow_fail := %v; ec_allow_crash := %v; ec_max_crashes := 1;\n   ec_allow_cancel := %v; ec_max_cancels := 1;\n   ec_steps := %s;\n   ec_final_choices := %d;\n   ec_disk := %s;\n   ec_resps := %s;\n   ec_events := %s |}",
+		j(setup), j(reqs), sc.Fail, sc.Crash, sc.Cancel, j(steps), ex.FinalCount, j(disk), j(resps), j(events))
 }
 
 func (n *names) ledgerPostings(ps ledger.Postings) string {
@@ -1116,13 +1189,15 @@ func main() {
 		prefix := []int{}
 		n, faults := 0, 0
 		exhaustive := false
-		validated, validateMax := 0, 40
+		// how many executions are replayed on the model: the first of the depth-first search, the first of the
+		// random phase (they differ early in the schedule, where the search varies last), every directed one
+		quotaDFS, quotaRandom, quotaDirected := 40, 20, 1000
 		if r.Thorough() {
-			validateMax = 400
+			quotaDFS, quotaRandom = 400, 200
 		}
 		g := vx.NewRng(r.Seed + uint64(len(sc.Name)))
-		explore := func(prefix []int) Exec {
-			ex := run(sc, prefix, false)
+		exploreD := func(prefix []int, script []string, quota *int) Exec {
+			ex := runDirected(sc, prefix, script, false)
 			n++
 			if ex.Fault != "" && ex.LostAckSet {
 				// not a scheduling artefact: the request's entry is on disk, it was resumed, and it never returned.
@@ -1137,7 +1212,7 @@ func main() {
 				faults++
 				r.Count("harness-fault")
 				if os.Getenv("VERIF_DEBUG") != "" {
-					ex2 := run(sc, ex.Schedule, true)
+					ex2 := runDirected(sc, ex.Schedule, nil, true)
 					fmt.Fprintln(os.Stderr, "FAULT", ex.Fault, ex.Choices, "rerun fault:", ex2.Fault)
 					for _, e := range ex2.Trace {
 						fmt.Fprintln(os.Stderr, "   ", e.Tid, e.Point, e.KV)
@@ -1154,19 +1229,27 @@ func main() {
 				fmt.Fprintln(os.Stderr, "EXEC", ex.Choices, string(js), len(ex.Disk))
 			}
 			coq := ""
-			modelled := !sc.Cancel && !sc.FailCtx // these scenarios offer choices the model does not have
+			modelled := !sc.FailCtx // this scenario offers a choice the model does not have
 			for _, c := range ex.MainChoices {
-				if c.Kind == "cancel" || c.Kind == "persist_fail_ctx" {
-					modelled = false // context cancellation and its store error are outside the model: oracle only
+				if c.Kind == "persist_fail_ctx" {
+					modelled = false // a store failure of kind context.Canceled is outside the model: oracle only
 				}
 			}
-			if validated < validateMax && modelled {
+			if *quota > 0 && modelled {
 				coq = coqCase(sc, ex)
-				validated++
+				*quota--
 			}
 			r.Case(coq, map[string]any{"scenario": sc, "schedule": ex.Schedule, "choices": ex.Choices}, fmt.Sprint(sc.Name, ex.Schedule), overlapped(ex))
 			return ex
 		}
+		explore := func(prefix []int) Exec { return exploreD(prefix, nil, &quotaDFS) }
+		for _, script := range sc.Directed {
+			ex := exploreD(nil, script, &quotaDirected)
+			if ex.Fault == "" {
+				r.Count("directed-schedule")
+			}
+		}
+		n = 0
 		// depth-first over the observed branching factors (stateless search by re-execution)
 		for n < b && faults < 6 {
 			ex := explore(prefix)
@@ -1183,7 +1266,7 @@ func main() {
 				for i := range rp {
 					rp[i] = g.Intn(5)
 				}
-				explore(rp)
+				exploreD(rp, nil, &quotaRandom)
 			}
 		}
 		r.Sum.Notes = append(r.Sum.Notes, fmt.Sprintf("%s: %d schedules, %d harness faults, exhaustive=%v", sc.Name, n, faults, exhaustive))
